@@ -36,4 +36,15 @@ def run(ctx):
     plans.append(("reprepare-storm-3x2", ["-random", n(700, 4000), "-kinds", "execute", "-nodes", "3", "-numconns", "2", "-clients", "8", "-workers", "8", "-round", "700",
                                           "-evict", "2", "-okbias", "8", "-nodrops"], False, "storm"))
     plans.append(("gated-d11", ["-scenario", "d11"], "gates", "gated-reprepare-send-fails"))
+    # the host becomes unusable exactly between the answer to a re-PREPARE and the re-execution (reached through the proxy's
+    # own PreparedCache interface): the request moves on, it never hangs
+    import json as _json
+    rx = ctx.path("reexec.json")
+    ctx.drv(["reexec", "-out", rx, "-rounds", "6" if t else "2"], timeout=600)
+    rxr = _json.load(open(rx))
+    if rxr["rounds_in_which_the_moment_was_reached"] == 0:
+        raise rf.core.Inconclusive("reexec: the moment between re-prepare and re-execution was never reached: %s" % rxr.get("observations"))
+    for h in rxr.get("hung") or []:
+        ctx.violation("C08:request-hangs-after-its-statement-was-re-prepared-never-re-e@host-lost-before-re-execution", h, replay=rxr)
+    ctx.notes["reexec"] = {k: rxr[k] for k in rxr if k != "hung"}
     rf.run_property(ctx, "C08", plans, scenario_filter=lambda s: "unprepared" in s["outcomes"], nscen=300)
